@@ -192,12 +192,15 @@ func runBatch(emit func(string), cfgTok, script string) {
 	nextFill := 0
 	var tr, vals []string
 	submit := func(pin *api.Pin, isPin bool) string {
-		var err error
-		func() {
+		// LogPin/LogUnpin must return at once (enqueue or refuse); a call that blocks is reported as 'e'
+		done := make(chan error, 1)
+		go func() {
+			var err error
 			defer func() {
 				if r := recover(); r != nil {
 					err = fmt.Errorf("panic: %v", r)
 				}
+				done <- err
 			}()
 			if isPin {
 				err = p.cc.LogPin(ctx, pin)
@@ -205,6 +208,12 @@ func runBatch(emit func(string), cfgTok, script string) {
 				err = p.cc.LogUnpin(ctx, pin)
 			}
 		}()
+		var err error
+		select {
+		case err = <-done:
+		case <-time.After(4 * time.Second):
+			err = errors.New("blocked")
+		}
 		switch {
 		case err == nil:
 			o := accOp{pin: isPin, cid: common.CidIndex(pin.Cid, common.PinUniverse)}
@@ -220,6 +229,7 @@ func runBatch(emit func(string), cfgTok, script string) {
 			return "e"
 		}
 	}
+	firedAtFlush := 0
 	npin := 0
 	for _, st := range steps {
 		if st == "" {
@@ -287,18 +297,24 @@ func runBatch(emit func(string), cfgTok, script string) {
 					addFiller()
 				}
 				var done bool
-				state, done = waitState(p, vt, oracle(acc), 2*time.Second)
-				// a failed commit leaves the batch waiting for the next item: one more at a time
-				for i := 0; !done && i <= bc.maxSize+1 && nextFill < nFillers; i++ {
-					addFiller()
-					state, done = waitState(p, vt, oracle(acc), 500*time.Millisecond)
-				}
-				if !done {
-					state, _ = waitState(p, vt, oracle(acc), 6*time.Second)
+				state, done = waitState(p, vt, oracle(acc), 3*time.Second)
+				// only an injected commit failure leaves a full batch waiting for the next item:
+				// then, and only then, one more filler at a time
+				if fired := len(p.store.firedStr()); p.store.firedStr() != "-" && fired > firedAtFlush {
+					for i := 0; !done && i <= bc.maxSize+1 && nextFill < nFillers; i++ {
+						addFiller()
+						state, done = waitState(p, vt, oracle(acc), 500*time.Millisecond)
+					}
+					if !done {
+						state, _ = waitState(p, vt, oracle(acc), 5*time.Second)
+					}
 				}
 			}
 			p.store.waitQuiet(3*time.Millisecond, 2*time.Second)
 			sinceFlush = 0
+			if f := p.store.firedStr(); f != "-" {
+				firedAtFlush = len(f)
+			}
 			j := "-"
 			if len(fl) > 0 {
 				j = strings.Join(fl, ",")
